@@ -98,7 +98,8 @@ pub(crate) fn format(src: &str, path: &Path) -> String {
     );
 
     // Phase 5: Apply indentation edits
-    let src_after_indent = apply_indentation_edits(&src_after_spans, &visitor.line_edits);
+    let src_after_indent =
+        apply_indentation_edits(&src_after_spans, &visitor.line_edits, &vfs_path);
     #[cfg(wilfred_garden_verif)]
     verif_trace(
         "5-line-edits",
@@ -113,7 +114,11 @@ pub(crate) fn format(src: &str, path: &Path) -> String {
     );
 
     // Phase 6: Normalize blank lines
-    let src_after_blanks = normalize_blank_lines(&src_after_indent, &visitor.toplevel_start_lines);
+    let src_after_blanks = normalize_blank_lines(
+        &src_after_indent,
+        &visitor.toplevel_start_lines,
+        &vfs_path,
+    );
     #[cfg(wilfred_garden_verif)]
     verif_trace(
         "6-blank-lines",
@@ -741,10 +746,34 @@ fn collect_comment_edits(
     }
 }
 
+/// The line numbers of lines that start inside a token, i.e. the
+/// continuation lines of multi-line string literals. The text of
+/// these lines is part of the string's value, so line-based
+/// formatting must not touch them.
+fn lines_starting_inside_token(
+    src: &str,
+    vfs_path: &crate::parser::vfs::VfsPathBuf,
+) -> FxHashSet<usize> {
+    let (mut token_stream, _) = lex_between(vfs_path, src, 0, src.len());
+
+    let mut lines = FxHashSet::default();
+    while let Some(token) = token_stream.pop() {
+        for line_num in (token.position.line_number + 1)..=token.position.end_line_number {
+            lines.insert(line_num);
+        }
+    }
+    lines
+}
+
 /// Apply indentation edits to the source while preserving blank lines.
-fn apply_indentation_edits(src: &str, line_edits: &[LineEdit]) -> String {
+fn apply_indentation_edits(
+    src: &str,
+    line_edits: &[LineEdit],
+    vfs_path: &crate::parser::vfs::VfsPathBuf,
+) -> String {
     let lines: Vec<&str> = src.lines().collect();
     let mut result = String::with_capacity(src.len());
+    let string_lines = lines_starting_inside_token(src, vfs_path);
 
     // Create a map for O(1) lookup
     let mut edits_map: FxHashMap<usize, &LineEdit> = FxHashMap::default();
@@ -753,7 +782,10 @@ fn apply_indentation_edits(src: &str, line_edits: &[LineEdit]) -> String {
     }
 
     for (line_num, line) in lines.iter().enumerate() {
-        if let Some(edit) = edits_map.get(&line_num) {
+        if string_lines.contains(&line_num) {
+            // The start of this line is inside a string literal.
+            result.push_str(line);
+        } else if let Some(edit) = edits_map.get(&line_num) {
             // Strip existing indentation and add correct amount
             let trimmed = line.trim_start();
 
@@ -809,11 +841,20 @@ fn apply_span_edits(src: &str, span_edits: &mut [SpanEdit]) -> String {
 ///
 /// - Before non-import toplevel definitions: exactly one blank line
 /// - Inside blocks: at most one blank line between lines
-fn normalize_blank_lines(src: &str, toplevel_start_lines: &[usize]) -> String {
+fn normalize_blank_lines(
+    src: &str,
+    toplevel_start_lines: &[usize],
+    vfs_path: &crate::parser::vfs::VfsPathBuf,
+) -> String {
     let lines: Vec<&str> = src.lines().collect();
     if lines.is_empty() {
         return src.to_owned();
     }
+
+    // Blank lines inside a multi-line string literal are part of its
+    // value, and so is the line break before them.
+    let string_lines = lines_starting_inside_token(src, vfs_path);
+    let is_blank = |i: usize| lines[i].trim().is_empty() && !string_lines.contains(&i);
 
     let toplevel_lines: FxHashSet<usize> = toplevel_start_lines.iter().copied().collect();
     let mut result = String::with_capacity(src.len());
@@ -823,9 +864,9 @@ fn normalize_blank_lines(src: &str, toplevel_start_lines: &[usize]) -> String {
         let line = lines[i];
 
         // If this line is blank
-        if line.trim().is_empty() {
+        if is_blank(i) {
             // Count consecutive blank lines
-            while i < lines.len() && lines[i].trim().is_empty() {
+            while i < lines.len() && is_blank(i) {
                 i += 1;
             }
 
@@ -849,6 +890,7 @@ fn normalize_blank_lines(src: &str, toplevel_start_lines: &[usize]) -> String {
         if i < lines.len()
             && !lines[i].trim().is_empty()
             && toplevel_lines.contains(&i)
+            && !string_lines.contains(&i)
             && !line.trim_start().starts_with("//")
         {
             // Next non-blank line is a toplevel definition, but there's no blank line
